@@ -471,6 +471,8 @@ func runC15(c *Ctx) {
 			c.Check(la.Accesses >= 8, "C15.lat-locked", "metadata", "guarded accesses analysed", "", fmt.Sprintf("%d accesses, %d under Metadata.mu", la.Accesses, la.Guarded))
 		}
 	}
+	// ---- latency bookkeeping tables (rules_c15_latency.go)
+	runLatencyStats(c)
 	// ---- slide
 	{
 		slide := P.Method("latency", "window", "slide")
